@@ -487,7 +487,9 @@ def monOp (op : String) (args : List String) : Option String :=
     let (xs, _) ← pRepeat pNat 14 ts
     match xs with
     | [r0a, r0b, r1a, r1b, sa, sb, ua, ub, la, lb, fa, fb, pa, pb] =>
-      some (if !okA then "ok"
+      -- ("exactly the effect of swapping half and depositing": also when the two-step route goes through, the single-asset
+      --  deposit with the same options must not be refused)
+      some (if !okA then (if okB1 && okB2 then "viol C14-refused-where-two-step-accepted" else "ok")
         else if !(okB1 && okB2) then "viol C14-two-step-rejected"
         else if r0a == r0b && r1a == r1b && sa == sb && ua == ub && la == lb && fa == fb && pa == pb + odd then "ok"
         else "viol C14-differs-from-two-step")
